@@ -490,6 +490,46 @@ func periodStartRule(w *World, r *Report, rule string, fns []*ssa.Function) {
 			}
 		}
 		okStart := false
+		// the start may be computed by a helper of the module: start(params, previous)
+		if hc, isCall := startArg.(*ssa.Call); isCall && prev != nil {
+			if h := hc.Common().StaticCallee(); h != nil && h.Blocks != nil && w.isProdFunc(h) {
+				var prevP *ssa.Parameter
+				for i, a := range hc.Common().Args {
+					if a == prev && i < len(h.Params) {
+						prevP = h.Params[i]
+					}
+				}
+				if prevP != nil {
+					good := true
+					for _, isNil := range []bool{true, false} {
+						isNil := isNil
+						live := ReachUnder(h, OrderEval(func(v ssa.Value) string {
+							if v == ssa.Value(prevP) {
+								return "prev"
+							}
+							return ""
+						}, func(a, b string) (int, bool) { return 0, false }, func(t string) (bool, bool) { return isNil, t == "prev" }))
+						vals := live.LiveReturns(h, 0)
+						if len(vals) == 0 {
+							good = false
+						}
+						for _, v := range vals {
+							if isNil {
+								if !loadOfField(v, "StartTime", nil) {
+									good = false
+								}
+							} else {
+								root, ok := derefOfPtrField(v, "EndTime")
+								if !ok || root != ssa.Value(prevP) {
+									good = false
+								}
+							}
+						}
+					}
+					okStart = good
+				}
+			}
+		}
 		if phi, ok := startArg.(*ssa.Phi); ok && prev != nil && len(phi.Edges) == 2 {
 			// under prev == nil -> params.StartTime ; else *prev.EndTime
 			for _, isNil := range []bool{true, false} {
